@@ -26,9 +26,26 @@ What is modelled (the code AS IT IS, defects included):
   `resetForNewCode` forgets `loadedCode`, so no transition reads the field
   (`C07_same_code_irrelevant`); the harness does re-run the same Go object and compares.
 
-A history is a list of invocations; the context of the `k`-th invocation (0-based) has
-id `k` and is created fresh for it.  `pre`/`during` name *earlier* invocations' contexts
-(entries `≥ k` denote nothing and are ignored).
+* context OBJECTS and code OBJECTS have an identity and may be REUSED: `ctx := some c` hands
+  the invocation the context object `c` (several invocations may name the same one; it may be
+  cancelled already - `start` still clears `halt` and arms a NEW watcher, which fires at once);
+  `same := some j` re-supplies code object `j`, into which the host may have compiled further
+  snippets in the meantime (`grows`: incremental compilation, `compiler.New` + `Compile`);
+  `vm.loadedCode` (`loaded`: code object ↦ the generation its wrapper is a snapshot of) is
+  what `RunCode` consults before it wraps a code object, and what `resetForNewCode` forgets;
+* Go scheduling where the code leaves the order open (`sched`): a watcher armed for an already
+  cancelled context stores `halt` before the first poll, after the first instruction, or - for
+  `RunCode` on a used VM - before `resetForNewCode` clears `halt` again (then nothing is left
+  to stop the run).
+
+A history is a list of invocations.  Contexts and code objects are named by natural numbers;
+the context / the code object created for the `k`-th invocation (0-based) has id `k`.
+`pre` names contexts cancelled before the invocation starts (ANY context: of an earlier
+invocation, the invocation's own - it then starts with a cancelled context -, or one that is
+used later or never); `during` names OTHER contexts cancelled by the host callback while the
+invocation runs (an entry naming the invocation's own context is ignored: cancelling the own
+context mid-run is the ending `selfCancel`); `grows` names the code objects the host compiles
+one more snippet into before the invocation starts.
 -/
 namespace Risor.C07
 
@@ -45,6 +62,14 @@ inductive Beh where
   | selfCancel  -- the host callback cancels the invocation's OWN context
   deriving DecidableEq, Repr, Inhabited
 
+/-- when the watcher that `start()` arms for an ALREADY CANCELLED context stores `halt`
+    (consulted for such invocations only; Go scheduling decides) -/
+inductive Sched where
+  | early   -- before the first poll of `eval`: no instruction is executed
+  | first   -- after the first instruction was dispatched (the harness holds the run there until the watcher has exited)
+  | lost    -- RunCode on a used VM only: before `resetForNewCode` stores `halt = 0` again - the store is wiped and no watcher is left
+  deriving DecidableEq, Repr, Inhabited
+
 structure Inv where
   kind : Kind
   beh : Beh
@@ -59,6 +84,9 @@ structure Inv where
   fimp : Bool := false -- the script then executes `import fmod` (a module the VM's importer loads from a file)
   mfail : Bool := false -- the ending `beh` happens INSIDE fmod's top-level code (when that code is executed)
   same : Option Nat := none -- RunCode re-supplies the *compiler.Code object compiled for that earlier invocation
+  ctx : Option Nat := none  -- the context OBJECT handed to the invocation: `none` = one created for it (id = its index), `some c` = the context with id `c` (shared with every invocation that names `c`)
+  grows : List Nat := []    -- code objects into which the host compiles one more snippet before the invocation starts
+  sched : Sched := .first   -- see `Sched`
   deriving DecidableEq, Repr, Inhabited
 
 inductive Outcome where
@@ -85,20 +113,34 @@ structure St where
   mods : Bool := true           -- the modules supplied as globals are in the import cache `vm.modules`
   fmod : Bool := false          -- the file module `fmod` is in the import cache `vm.modules` (fully initialised)
   acc : Nat := 0                -- len(acc), the host global
+  grown : List Nat := []        -- world: one entry per snippet compiled into a code object after its creation (generation of `j` = occurrences of `j`)
+  loaded : List (Nat × Nat) := []  -- `vm.loadedCode`, entry codes only: code object ↦ generation its wrapper is a snapshot of
+  cur : Nat := 0                -- number of growth snippets in the snapshot the active RunCode executes (0 for Run/Call)
+  icache : Bool := false        -- the VM's importer has parsed and compiled the file module before (`LocalImporter.codeCache`; survives `resetForNewCode`)
+  gone : Bool := false          -- the context of the (last) started invocation was already cancelled when it started: its `Err()` is non-nil throughout
   deriving DecidableEq, Repr, Inhabited
 
 def fresh (acc : Nat) : St := { acc := acc }
 
-/-- `cancel(ctx_i)`, and the harness waits until the watcher (if one is armed) has stored
-    `halt := 1`.  A watcher fires once. -/
+/-- `cancel(ctx_i)`, and the harness waits until the watchers armed for it (one per invocation
+    that was started with this context object) have stored `halt := 1`.  A watcher fires once. -/
 def cancel (s : St) (i : Nat) : St :=
   if s.cancelled.contains i then s
   else
     let s := { s with cancelled := i :: s.cancelled }
-    if s.armed.contains i then { s with halt := true, armed := s.armed.erase i } else s
+    if s.armed.contains i then { s with halt := true, armed := s.armed.filter (· != i) } else s
 
-/-- only contexts of EARLIER invocations can be named by `pre`/`during` -/
-def earlier (k : Nat) (is : List Nat) : List Nat := is.filter (· < k)
+/-- the context object handed to invocation `k` -/
+def ctxOf (k : Nat) (inv : Inv) : Nat := inv.ctx.getD k
+
+/-- the code object handed to invocation `k` (RunCode) -/
+def codeOf (k : Nat) (inv : Inv) : Nat := inv.same.getD k
+
+/-- `during` names OTHER contexts (the own context is cancelled mid-run by `selfCancel`) -/
+def others (c : Nat) (is : List Nat) : List Nat := is.filter (· != c)
+
+/-- current generation of code object `j`: how many snippets were compiled into it since its creation -/
+def genOf (s : St) (j : Nat) : Nat := s.grown.count j
 
 def cancelAll (s : St) (is : List Nat) : St := is.foldl cancel s
 
@@ -108,13 +150,16 @@ def start (s : St) (k : Nat) (bg : Bool) : St :=
            armed := if bg then s.armed else k :: s.armed }
 
 /-- `resetForNewCode` -/
-def reset (s : St) : St := { s with sp := -1, fp := 0, halt := false, mods := false, fmod := false }
+def reset (s : St) : St :=
+  { s with sp := -1, fp := 0, halt := false, mods := false, fmod := false, loaded := [] }
 
-/-- result of the leaf when no halt is pending -/
-def behOutcome (b : Beh) (v acc : Nat) : Outcome :=
+/-- result of the leaf when no halt is pending; `g` = number of growth snippets the executed
+    code contains after the call (each evaluates `v + 1000*len(acc) + 1000000*i`; the last one
+    is the result) -/
+def behOutcome (b : Beh) (v acc : Nat) (g : Nat := 0) : Outcome :=
   match b with
-  | .normal => .ok (v + 1000 * acc)
-  | .selfCancel => .ok (v + 1000 * acc)   -- only reached with a Background context
+  | .normal => .ok (v + 1000 * acc + 1000000 * g)
+  | .selfCancel => .ok (v + 1000 * acc + 1000000 * g)   -- only reached when no watcher can stop the run
   | .err => .errRuntime
   | .panic => .errPanic
   | .overflow => .errOverflow
@@ -122,11 +167,12 @@ def behOutcome (b : Beh) (v acc : Nat) : Outcome :=
 /-- stack slots the invocation leaves above its base.  Since the `fix:` commit in vm/vm.go
     (`callFunction` drops the leftovers of a call that ends in an error) a cancelled or failing
     call leaves nothing behind; a cut-short "success" (`okHook`) still carries the abandoned
-    frame's top down as a "frame result" (`resumeFrame`). -/
-def spDelta (kind : Kind) (pend : Nat) (o : Outcome) : Int :=
+    frame's top down as a "frame result" (`resumeFrame`).  Every growth snippet of the executed
+    code (`g` of them) is an expression statement of its own and leaves its value. -/
+def spDelta (kind : Kind) (pend : Nat) (g : Nat) (o : Outcome) : Int :=
   match kind, o with
   | .call, _ => 0
-  | _, .ok _ => 1
+  | _, .ok _ => 1 + g
   | _, .okHook => pend + 1
   | _, _ => pend
 
@@ -134,34 +180,73 @@ def spDelta (kind : Kind) (pend : Nat) (o : Outcome) : Int :=
     `RunCode(context.Background(), defs)` (what `risor.Call` does) -/
 def setup (s : St) : St :=
   if s.hasCode then s
-  else { s with startCount := s.startCount + 1, halt := false, sp := 0, fp := 0, hasCode := true }
+  else
+    -- on a VM that has been started before (its last Run/RunCode was stopped before the
+    -- definitions were executed) this RunCode resets the VM like any other
+    { s with startCount := s.startCount + 1, halt := false, sp := 0, fp := 0, hasCode := true,
+             mods := s.mods && s.startCount == 0, fmod := s.fmod && s.startCount == 0 }
 
-/-- cancellations placed before the invocation, and `Call`'s loading of definitions -/
+/-- what happens in the world before the invocation starts: the host compiles further
+    snippets into code objects, contexts are cancelled (their watchers fire) -/
+def events (s : St) (inv : Inv) : St :=
+  cancelAll { s with grown := inv.grows ++ s.grown } inv.pre
+
+/-- state of the VM just before `start` of invocation `k` (after the `grows`/`pre` events) -/
+def preState (s : St) (k : Nat) (inv : Inv) : St := events s inv
+
+/-- the events placed before the invocation, and `Call`'s loading of definitions -/
 def prep (s : St) (k : Nat) (inv : Inv) : St :=
-  let s := cancelAll s (earlier k inv.pre)
+  let s := preState s k inv
   if inv.kind = .call then setup s else s
 
-/-- `start(ctx_k)` followed by `resetForNewCode` when `RunCode` runs on a VM that has been
-    started before -/
+/-- the invocation is handed a context that is ALREADY cancelled when it starts -/
+def dead (s : St) (k : Nat) (inv : Inv) : Bool :=
+  !inv.bg && (preState s k inv).cancelled.contains (ctxOf k inv)
+
+/-- the schedule in which the cancellation of a dead context is lost: `RunCode` on a VM that
+    has been started before calls `start` (the watcher is launched, stores `halt = 1`, exits)
+    and THEN `resetForNewCode` (`halt = 0`) -/
+def loses (s : St) (k : Nat) (inv : Inv) : Bool :=
+  inv.sched == .lost && inv.kind == .runCode && decide (0 < s.startCount)
+
+/-- the run is stopped by its own, already cancelled, context before it gets anywhere -/
+def cut (s : St) (k : Nat) (inv : Inv) : Bool := dead s k inv && !loses s k inv
+
+/-- the watcher armed for a dead context exits at once: for the rest of the invocation there is
+    no watcher for its context, as with a context that has no Done channel -/
+def eff (s : St) (k : Nat) (inv : Inv) : Inv :=
+  if dead s k inv then { inv with bg := true } else inv
+
+/-- `start(ctx)`, followed by `resetForNewCode` when `RunCode` runs on a VM that has been
+    started before, followed by `RunCode`'s look-up of the code object in `vm.loadedCode`: an
+    existing wrapper (a snapshot of the instructions at the time it was made) is reused AS IS,
+    otherwise the code object is wrapped now -/
 def enter (s : St) (k : Nat) (inv : Inv) : St :=
-  let s := { start s k inv.bg with hasCode := true }
-  if inv.kind = .runCode ∧ s.startCount > 1 then reset s else s
+  -- a watcher armed for an already cancelled context fires at once and exits: it never stays armed
+  let d := !inv.bg && s.cancelled.contains (ctxOf k inv)
+  let s : St := { start s (ctxOf k inv) (inv.bg || d) with hasCode := true, gone := d }
+  let s : St := if inv.kind = .runCode ∧ s.startCount > 1 then reset s else s
+  if inv.kind = .runCode then
+    let g := (s.loaded.lookup (codeOf k inv)).getD (genOf s (codeOf k inv))
+    { s with cur := g, loaded := (codeOf k inv, g) :: s.loaded }
+  else { s with cur := 0 }
 
 /-- the script reaches its leaf: `depth+1` frames are active, the appends to the host global
-    are done, the host callback cancels what it was told to cancel (earlier contexts and,
-    for `selfCancel`, the invocation's own context) and waits for the watchers to fire -/
-def leaf (s : St) (k : Nat) (inv : Inv) : St :=
+    are done, the host callback cancels what it was told to cancel (other contexts and,
+    for `selfCancel`, the invocation's own context `c`) and waits for the watchers to fire -/
+def leaf (s : St) (c : Nat) (inv : Inv) : St :=
   let s := { s with fp := s.fp + inv.depth + 1, acc := s.acc + inv.bump }
-  let s := cancelAll s (earlier k inv.during)
-  if inv.beh = .selfCancel ∧ inv.bg = false then cancel s k else s
+  let s := cancelAll s (others c inv.during)
+  if inv.beh = .selfCancel ∧ inv.bg = false then cancel s c else s
 
 /-- what the next instruction after the host callback does: every enclosing `eval` polls
-    `halt` and returns `ctx.Err()` of ITS (the current) context; otherwise the script goes on -/
-def leafOutcome (s : St) (k : Nat) (inv : Inv) : Outcome :=
-  if s.halt then (if s.cancelled.contains k then .errCanceled else .okHook)
-  else behOutcome inv.beh inv.v s.acc
+    `halt` and returns `ctx.Err()` of ITS (the current) context `c`; otherwise the script goes
+    on (and the growth snippets of the executed snapshot follow) -/
+def leafOutcome (s : St) (c : Nat) (inv : Inv) : Outcome :=
+  if s.halt then (if s.gone || (!inv.bg && s.cancelled.contains c) then .errCanceled else .okHook)
+  else behOutcome inv.beh inv.v s.acc s.cur
 
-/-- the invocation cancels its own context (possible only if the context can be cancelled) -/
+/-- the invocation cancels its own context (possible only if a watcher is armed for it) -/
 def ownCancel (inv : Inv) : Bool := inv.beh == .selfCancel && !inv.bg
 
 /-- `import fmod` executes the module's top-level code: the module is not in `vm.modules`
@@ -190,56 +275,81 @@ def modResidue (s : St) (inv : Inv) (o : Outcome) : Int :=
     `vm.modules[name] = module`, so NOTHING is cached; its deferred `resumeFrame` restores
     fp/sp; the appends and the leaf's host callback (hence the `during` cancellations) are
     never reached -/
-def modEnd (s : St) (k : Nat) (inv : Inv) : St × Outcome :=
-  let s' := if ownCancel inv then cancel s k else s
-  let o := if ownCancel inv then Outcome.errCanceled else behOutcome inv.beh inv.v s.acc
-  ({ s' with sp := s'.sp + spDelta inv.kind inv.pend o }, o)
+def modEnd (s : St) (c : Nat) (inv : Inv) : St × Outcome :=
+  let s' := if ownCancel inv then cancel s c else s
+  let o := if ownCancel inv then Outcome.errCanceled else behOutcome inv.beh inv.v s.acc s.cur
+  ({ s' with sp := s'.sp + spDelta inv.kind inv.pend s.cur o, icache := true }, o)
 
-/-- the body of an invocation between `start`(+reset) and `stop` -/
-def core (s : St) (k : Nat) (inv : Inv) : St × Outcome :=
+/-- the body of an invocation between `start`(+reset, +load) and `stop`; `c` = its context -/
+def core (s : St) (c : Nat) (inv : Inv) : St × Outcome :=
   if inv.imp ∧ s.mods = false then
     -- `import hostmod` in the leaf frame: not in vm.modules any more and the importer does not
     -- know it: "imports are disabled" / "module not found"; the appends and the host callback
     -- are never reached
-    ({ s with sp := s.sp + spDelta inv.kind inv.pend .errImport }, .errImport)
-  else if modEnds s inv then modEnd s k inv
+    ({ s with sp := s.sp + spDelta inv.kind inv.pend s.cur .errImport }, .errImport)
+  else if s.gone ∧ modRuns s inv = true ∧ s.icache = false then
+    -- `import fmod` with a context that is already cancelled (reached only when the reset wiped
+    -- the watcher's store): the importer hands the invocation's context to the parser, which
+    -- gives up with its error before any module code runs - unless the importer has compiled
+    -- the file before (its own cache)
+    ({ s with sp := s.sp + spDelta inv.kind inv.pend s.cur .errCanceled }, .errCanceled)
+  else if modEnds s inv then modEnd s c inv
   else
-    let l := leaf s k inv
-    let o := leafOutcome l k inv
+    let l := leaf s c inv
+    let o := leafOutcome l c inv
     -- the deferred resumeFrame calls restore fp on every way out; sp as computed by spDelta;
     -- a module whose top-level code ran to its end is cached, however the invocation ends later
     ({ l with fp := l.fp - (inv.depth + 1),
-              sp := s.sp + spDelta inv.kind inv.pend o + modResidue s inv o,
-              fmod := s.fmod || inv.fimp }, o)
-
-/-- one invocation on the (possibly reused) VM -/
-def invoke (s : St) (k : Nat) (inv : Inv) : St × Outcome :=
-  let s := prep s k inv
-  if s.running then (s, .errBusy)
-  else
-    let r := core (enter s k inv) k inv
-    ({ r.1 with running := false }, r.2)
-
-/-- state of the VM just before `start` of invocation `k` (after the `pre` cancellations) -/
-def preState (s : St) (k : Nat) (inv : Inv) : St := cancelAll s (earlier k inv.pre)
+              sp := s.sp + spDelta inv.kind inv.pend s.cur o + modResidue s inv o,
+              fmod := s.fmod || inv.fimp, icache := s.icache || modRuns s inv }, o)
 
 /-- state in which the body of invocation `k` starts -/
 def bodyState (s : St) (k : Nat) (inv : Inv) : St := enter (prep s k inv) k inv
 
+/-- what a run that its own dead context stops at once leaves on the stack: nothing, or the
+    value the first instruction of a Run/RunCode script pushed (a failing `Call` drops its
+    leftovers) -/
+def cutResidue (inv : Inv) : Int :=
+  if inv.kind = .call then 0 else if inv.sched = .early then 0 else 1
+
+/-- the VM after a run that its own dead context stopped at once: the watcher has stored
+    `halt`, the next poll returned `ctx.Err()` -/
+def cutState (b : St) (inv : Inv) : St :=
+  -- a Run/RunCode that is stopped there has not executed its function definitions: a later
+  -- `Call` has to load definitions first (`setup`)
+  { b with halt := true, running := false, sp := b.sp + cutResidue inv,
+           hasCode := inv.kind == .call }
+
+/-- one invocation on the (possibly reused) VM -/
+def invoke (s : St) (k : Nat) (inv : Inv) : St × Outcome :=
+  let p := prep s k inv
+  if p.running then (p, .errBusy)
+  else
+    let b := bodyState s k inv
+    if cut s k inv then
+      (cutState b inv, .errCanceled)
+    else
+      let r := core b (ctxOf k inv) (eff s k inv)
+      ({ r.1 with running := false }, r.2)
+
 /-- the script reaches its leaf (the appends and the host callback `hook()`) -/
 def leafReached (s : St) (k : Nat) (inv : Inv) : Bool :=
-  !(inv.imp && !(bodyState s k inv).mods) && !modEnds (bodyState s k inv) inv
+  !cut s k inv && !(inv.imp && !(bodyState s k inv).mods) &&
+    !(dead s k inv && modRuns (bodyState s k inv) inv && !(bodyState s k inv).icache) &&
+    !modEnds (bodyState s k inv) (eff s k inv)
 
 /-- fmod's top-level code is executed by this invocation (observed: the module's own host
     callback is called) -/
 def modRan (s : St) (k : Nat) (inv : Inv) : Bool :=
-  !(inv.imp && !(bodyState s k inv).mods) && modRuns (bodyState s k inv) inv
+  !cut s k inv && !(inv.imp && !(bodyState s k inv).mods) &&
+    !(dead s k inv && !(bodyState s k inv).icache) && modRuns (bodyState s k inv) inv
 
 /-- `len(vm.modules)` (observed through the `verif` hook) -/
 def modCount (s : St) : Nat := (if s.mods then 1 else 0) + (if s.fmod then 1 else 0)
 
 /-- frame pointer while the host callback runs (observed through the `verif` hook) -/
-def leafFp (s : St) (k : Nat) (inv : Inv) : Nat := (leaf (bodyState s k inv) k inv).fp
+def leafFp (s : St) (k : Nat) (inv : Inv) : Nat :=
+  (leaf (bodyState s k inv) (ctxOf k inv) (eff s k inv)).fp
 
 /-- run a history from state `s`, the first invocation having index `k`; returns every
     intermediate state and outcome -/
@@ -250,40 +360,70 @@ def runFrom (s : St) (k : Nat) : List Inv → List (St × Outcome)
 def run (h : List Inv) : List (St × Outcome) := runFrom (fresh 0) 0 h
 
 /-- **Spec**: what the property demands of invocation `inv` when the host global has the
-    value `acc`: the outcome of that invocation alone, on a fresh VM, where nothing that
-    concerns another invocation's context exists. -/
-def specOutcome (inv : Inv) (acc : Nat) : Outcome :=
-  if ownCancel inv then .errCanceled else behOutcome inv.beh inv.v (acc + inv.bump)
+    value `acc`, the code object it is handed contains `g` growth snippets NOW and its context
+    is (`dead`) or is not cancelled already: the outcome of that invocation alone, on a fresh
+    VM, where nothing that concerns another invocation's context exists. -/
+def specOutcome (inv : Inv) (acc : Nat) (g : Nat) (dead : Bool) : Outcome :=
+  if dead || ownCancel inv then .errCanceled else behOutcome inv.beh inv.v (acc + inv.bump) g
 
-/-- the Impl on a fresh VM whose host global has the value `acc`, with no events that
-    concern other contexts (proved equal to the Spec in Props) -/
-def freshOutcome (inv : Inv) (k acc : Nat) : Outcome :=
-  (invoke (fresh acc) k { inv with pre := [], during := [] }).2
+/-- the generation of the code object handed to invocation `k`, as it is when the invocation
+    starts (only `RunCode` is handed a code object) -/
+def curGen (s : St) (k : Nat) (inv : Inv) : Nat :=
+  if inv.kind = .runCode then genOf (preState s k inv) (codeOf k inv) else 0
+
+/-- the Spec of invocation `k` in the world `s` (reads only the world: the host global, the
+    code objects' contents, which contexts are cancelled) -/
+def specAt (s : St) (k : Nat) (inv : Inv) : Outcome :=
+  specOutcome inv s.acc (curGen s k inv) (dead s k inv)
+
+/-- the Impl on a fresh VM whose host global has the value `acc`, handed a code object with
+    `g` growth snippets and a context that is (`d`) or is not cancelled already, with no events
+    that concern other contexts (proved equal to the Spec in Props) -/
+def freshWorld (inv : Inv) (k acc : Nat) (g : Nat) (d : Bool) : St :=
+  { fresh acc with cancelled := if d then [ctxOf k inv] else [],
+                   grown := List.replicate g (codeOf k inv) }
+
+def freshOutcome (inv : Inv) (k acc : Nat) (g : Nat) (d : Bool) : Outcome :=
+  (invoke (freshWorld inv k acc g d) k { inv with pre := [], during := [], grows := [] }).2
 
 /-- guard of the finding `C07-reset-drops-global-modules`: the invocation imports a module
     that was supplied as a global after some `RunCode` has reset `vm.modules` -/
 def importFails (s : St) (k : Nat) (inv : Inv) : Bool :=
-  inv.imp && !(bodyState s k inv).mods
+  !cut s k inv && inv.imp && !(bodyState s k inv).mods
 
 /-- will cancelling context `i` in state `s` make a watcher of this VM fire? -/
 def fires (s : St) (i : Nat) : Bool := s.armed.contains i && !s.cancelled.contains i
 
-/-- guard of the finding `C07-stale-context-watcher`: a watcher of an EARLIER context fires
-    while invocation `k` executes from state `s` (the `during` cancellations are made by the
-    leaf's host callback, so the leaf must be reached) -/
+/-- guard of the finding `C07-stale-context-watcher`: a watcher armed for ANOTHER context (by
+    an earlier invocation) fires while invocation `k` executes from state `s` (the `during`
+    cancellations are made by the leaf's host callback, so the leaf must be reached) -/
 def staleFires (s : St) (k : Nat) (inv : Inv) : Bool :=
-  !importFails s k inv && !modEnds (bodyState s k inv) inv &&
-    (earlier k inv.during).any (fires (bodyState s k inv))
+  !cut s k inv && !importFails s k inv &&
+    !(dead s k inv && modRuns (bodyState s k inv) inv && !(bodyState s k inv).icache) &&
+    !modEnds (bodyState s k inv) (eff s k inv) &&
+    (others (ctxOf k inv) inv.during).any (fires (bodyState s k inv))
+
+/-- a run that lost the cancellation of its context is stopped after all, by the importer, when
+    it imports a file module that neither the VM nor its importer has cached -/
+def lostImport (s : St) (k : Nat) (inv : Inv) : Bool :=
+  !cut s k inv && !importFails s k inv &&
+    (dead s k inv && modRuns (bodyState s k inv) inv && !(bodyState s k inv).icache)
+
+/-- guard of the finding `C07-runcode-reset-loses-cancellation`: `RunCode` on a used VM is
+    handed an already cancelled context and the watcher's store is wiped by the reset -/
+def lostFires (s : St) (k : Nat) (inv : Inv) : Bool := dead s k inv && loses s k inv
 
 /-- exactly the invocations whose outcome on the reused VM differs from the Spec -/
 def harms (s : St) (k : Nat) (inv : Inv) : Bool :=
-  importFails s k inv || (staleFires s k inv && !ownCancel inv)
+  importFails s k inv ||
+    (if lostFires s k inv then !(staleFires s k inv || lostImport s k inv)
+     else staleFires s k inv && !ownCancel inv)
 
 /-- (outcome on the reused VM, outcome the Spec demands) of every invocation of a history -/
 def pairsFrom (s : St) (k : Nat) : List Inv → List (Outcome × Outcome)
   | [] => []
   | inv :: rest =>
-    ((invoke s k inv).2, specOutcome inv s.acc) :: pairsFrom (invoke s k inv).1 (k + 1) rest
+    ((invoke s k inv).2, specAt s k inv) :: pairsFrom (invoke s k inv).1 (k + 1) rest
 
 def pairs (h : List Inv) : List (Outcome × Outcome) := pairsFrom (fresh 0) 0 h
 
@@ -291,12 +431,29 @@ def anyFrom (f : St → Nat → Inv → Bool) (s : St) (k : Nat) : List Inv → 
   | [] => false
   | inv :: rest => f s k inv || anyFrom f (invoke s k inv).1 (k + 1) rest
 
-/-- somewhere in the history a watcher of an earlier context fires during a later invocation -/
+/-- somewhere in the history a watcher of another, earlier used, context fires during a later invocation -/
 def staleCancel (h : List Inv) : Bool := anyFrom staleFires (fresh 0) 0 h
 /-- somewhere in the history a global module is imported after a reset -/
 def importAfterReset (h : List Inv) : Bool := anyFrom importFails (fresh 0) 0 h
+/-- somewhere in the history the reset of a `RunCode` wipes the cancellation of its context -/
+def lostCancel (h : List Inv) : Bool := anyFrom lostFires (fresh 0) 0 h
 /-- the exact guard: some invocation of the history is harmed -/
 def harmed (h : List Inv) : Bool := anyFrom harms (fresh 0) 0 h
+
+/-- (generation of the snapshot a `RunCode` executes, generation of the code object when the
+    invocation starts) for every `RunCode` of a history that is not stopped at once -/
+def gensFrom (s : St) (k : Nat) : List Inv → List (Nat × Nat)
+  | [] => []
+  | inv :: rest =>
+    (if inv.kind = .runCode then [((bodyState s k inv).cur, curGen s k inv)] else []) ++
+      gensFrom (invoke s k inv).1 (k + 1) rest
+
+/-- outcomes of the invocations of a history that are handed an already cancelled context -/
+def deadOutcomesFrom (s : St) (k : Nat) : List Inv → List Outcome
+  | [] => []
+  | inv :: rest =>
+    (if dead s k inv then [(invoke s k inv).2] else []) ++
+      deadOutcomesFrom (invoke s k inv).1 (k + 1) rest
 
 
 /-! ### Frame-level refinement of the unwinding
@@ -314,11 +471,11 @@ inductive Sig where
   deriving DecidableEq, Repr
 
 /-- the leaf frame after the host callback returned -/
-def leafSig (halt ownCancelled : Bool) (b : Beh) (v acc : Nat) : Sig :=
+def leafSig (halt ownCancelled : Bool) (b : Beh) (v acc : Nat) (g : Nat) : Sig :=
   if halt then (if ownCancelled then .err .errCanceled else .val true 0)
   else match b with
-    | .normal => .val false (v + 1000 * acc)
-    | .selfCancel => .val false (v + 1000 * acc)
+    | .normal => .val false (v + 1000 * acc + 1000000 * g)
+    | .selfCancel => .val false (v + 1000 * acc + 1000000 * g)
     | .err => .err .errRuntime
     | .panic => .pan .errPanic
     | .overflow => .pan .errOverflow
